@@ -96,7 +96,7 @@ Definition run_step (p : pcfg) (pushes : bool) (s : st) (o : orec) : st * list N
     let s1 := exec p s [Hello] in
     (* the server may miss the new session: the disconnect notification of the
        previous connection can arrive after the new handshake (observed order) *)
-    let s' := if rehello && negb srv_ready then set_conn s1 false else s1 in
+    let s' := if rehello then set_conn s1 srv_ready else s1 in
     (s', (if Bool.eqb rehello (negb (cl_stuck (st_cl s))) then [] else [8])
          ++ (if mir_eqb s' (o_mir o) then [] else [8]) ++ pushes_ok s')
   end.
@@ -143,7 +143,13 @@ Definition dropped (k : c09case) : bool :=
    repairs of the client side; 8 the placeholder
    dataLatest of NewServer was pushed; 5 a full Sync happened; 4 a push
    consumed a snapshot without sending it (empty Indexes); 7 reconnect;
+   9 after a reconnect the server did not return to Ready (the previous
+   connection was still open, or its disconnect notification came late);
    0 none of these. *)
+(* a reconnect after which the server side never got back to Ready *)
+Definition lost_session (k : c09case) : bool :=
+  existsb (fun o => match o_step o with ODrop true false => true | _ => false end) (k_steps k).
+
 Definition cls (k : c09case) : N :=
   let s := fst (model_final k) in
   if p_mut (k_p k) then 3
@@ -151,6 +157,7 @@ Definition cls (k : c09case) : N :=
   else if raced k then 1
   else if negb (s_m (k_hello_src k) =? 0)
           && negb (p_hello_m (k_p k) && p_sync_m (k_p k)) then 6
+  else if lost_session k then 9
   else if st_initpush s then 8
   else if st_synced s then 5
   else if st_silent s then 4
